@@ -154,7 +154,7 @@ def scenario_part(ctx: vlib.Ctx):
     same-named type arguments from different modules, inheritance with overriding)"""
     from harness import gen, scenarios
     from mashumaro.codecs.basic import BasicDecoder, BasicEncoder
-    for _ in range(ctx.budget(60, 600)):
+    for _ in range(ctx.budget(240, 1500)):
         sc = ctx.rng.choice(scenarios.SCENARIOS)(ctx.rng)
         ctx.hist("scenarios", sc["name"])
         try:
